@@ -9,7 +9,7 @@ use crate::symbol_table::{ResolveError, ResolveErrorCause};
 use serde::{Deserialize, Serialize};
 use std::cell::RefCell;
 use std::rc::Rc;
-use veryl_parser::resource_table::TokenId;
+use veryl_parser::resource_table::{PathId, StrId, TokenId};
 use veryl_parser::token_range::TokenRange;
 use veryl_parser::veryl_grammar_trait::{
     ExpressionIdentifier, GenericArgIdentifier, HierarchicalIdentifier, Identifier,
@@ -117,6 +117,26 @@ impl From<&InstParameterItem> for ReferenceCandidate {
 impl From<&InstPortItem> for ReferenceCandidate {
     fn from(value: &InstPortItem) -> Self {
         Self::InstPortItem { arg: value.clone() }
+    }
+}
+
+impl ReferenceCandidate {
+    /// A token of the source construct the candidate was queued for; tells
+    /// which file (and project) the candidate belongs to.
+    fn token(&self) -> Token {
+        match self {
+            Self::Identifier { arg } => arg.identifier_token.token,
+            Self::HierarchicalIdentifier { arg } => arg.identifier.identifier_token.token,
+            Self::ScopedIdentifier { arg, .. } => arg.identifier().token,
+            Self::ExpressionIdentifier { arg } => arg.scoped_identifier.identifier().token,
+            Self::GenericArgIdentifier { arg } => arg.scoped_identifier.identifier().token,
+            Self::ImportItem { arg, .. } => arg.identifier_token.token,
+            Self::ModportItem { arg } => arg.identifier.identifier_token.token,
+            Self::InstParameterItem { arg } => arg.identifier.identifier_token.token,
+            Self::InstPortItem { arg } => arg.identifier.identifier_token.token,
+            Self::StructConstructorItem { arg, .. } => arg.identifier.identifier_token.token,
+            Self::NamedArgument { arg, .. } => arg.scoped_identifier.identifier().token,
+        }
     }
 }
 
@@ -902,6 +922,18 @@ thread_local!(static REFERENCE_TABLE: RefCell<ReferenceTable> = RefCell::new(Ref
 
 pub fn add(cand: ReferenceCandidate) {
     REFERENCE_TABLE.with(|f| f.borrow_mut().add(cand))
+}
+
+/// Discards the pending candidates queued by a file that is being dropped.
+/// Their tokens lose their scope with the file, so they must not reach
+/// [`apply`]. Call before `scope::drop_tokens`.
+pub fn drop(path: PathId, prj: Option<StrId>) {
+    REFERENCE_TABLE.with(|f| {
+        f.borrow_mut().candidates.retain(|x| {
+            let token = x.token();
+            !(token.source == path && (prj.is_none() || scope::token_project(token.id) == prj))
+        })
+    })
 }
 
 /// Returns the current number of pending candidates. Used as a watermark
